@@ -85,6 +85,19 @@ func gen(tier string, seed int64) []hx.Scenario {
 						c := cfg{t: t, n: n, subset: pres, base: v.base, secret: v.secret, label: lab}
 						out = append(out, hx.Scenario{Name: "shamir", Cfg: fmt.Sprintf("t=%d n=%d shares=%v base=%s secret=%s %s", t, n, pres, v.base, v.secret, lab),
 							Run: func(x *hx.Ctx) { runShamir(x, c) }})
+						if oi == 1 && len(ord) >= 1 {
+							// the same share delivered twice, the repeated one being the LOWEST index (it sorts into the first t entries)
+							lo := ord[0]
+							for _, i := range ord {
+								if i < lo {
+									lo = i
+								}
+							}
+							pres2 := append(append([]int{}, ord...), lo)
+							c2 := cfg{t: t, n: n, subset: pres2, base: v.base, secret: v.secret, label: "dup"}
+							out = append(out, hx.Scenario{Name: "shamir", Cfg: fmt.Sprintf("t=%d n=%d shares=%v base=%s secret=%s duplow", t, n, pres2, v.base, v.secret),
+								Run: func(x *hx.Ctx) { runShamir(x, c2) }})
+						}
 					}
 				}
 			}
